@@ -365,7 +365,7 @@ func runCases(c *core.Ctx, byCC map[string]*regime, cases []tcase) int {
 		}
 	}
 	if mxNonAlnum > 0 {
-		c.Note("MX: %d accepted RFCs contain `&` or `Ñ` (validation skips the generic `^[A-Z0-9]+$` gate for MX). The national RFC format allows these characters, so the C13 statement holds for them; the mismatch with the published JSON-schema pattern of tax.Identity.code belongs to C11.", mxNonAlnum)
+		c.Note("MX: %d accepted RFCs contain `&` or `Ñ` (validation skips the generic `^[A-Z0-9]+$` gate for MX). The national RFC format allows these characters, so the C13 statement holds for them; the published JSON-schema pattern of tax.Identity.code admits them too (IdentityCodeSchemaPattern, checked by C11).", mxNonAlnum)
 	}
 	return c.Finish("per regime: codes valid by the published rule (check digits computed independently in the harness), every single-character substitution of such codes inside the positional alphabet plus length edits, random strings over the national alphabet with length of a national format +-1, special-remainder codes, and formatted variants (separators, lower case, country prefix, CH suffix) for the normalisation laws; non-trivial = validation case in the national format (check-digit logic reached) or normalisation case that changes the text; distinct by regime+code",
 		nil)
